@@ -481,7 +481,7 @@ class Parser:
                             msg = "{} found while {} expected near '{}'".format(
                                 ttype,
                                 "|".join(self.__expected),
-                                text.decode()[self.lexer.pos],
+                                tvalue.decode("utf-8", "replace")[:1],
                             )
                         else:
                             msg = "%s found while %s expected at end of file" % (
@@ -493,8 +493,8 @@ class Parser:
 
                 if not self.__command(ttype, tvalue):
                     msg = "unexpected token '%s' found near '%s'" % (
-                        tvalue.decode(),
-                        text.decode()[self.lexer.pos],
+                        tvalue.decode("utf-8", "replace"),
+                        tvalue.decode("utf-8", "replace")[:1],
                     )
                     raise ParseError(msg)
             if self.__expected_brackets:
